@@ -615,6 +615,8 @@ def check(ctx, run):
             n8 += 1
             run.analysed(f)
             getters = []
+            if not [g_ for g_ in prog.methods_of("MockNamedValue") if g_.name == "get%sValue" % m.group(1)]:
+                raise AnalysisBroken("C08.R8: %s is paired with MockNamedValue::get%sValue by its name, and no such getter exists (renamed?)" % (f.name, m.group(1)))
             hooks = {AC + "::returnValue": lambda *a_: 990, "MockActualCall::returnValue": lambda *a_: 990}
             for g_ in prog.functions.values():
                 if g_.cls == "MockNamedValue" and re.match(r"^get\w+Value$", g_.name):
